@@ -357,8 +357,10 @@ Definition redir_site (c : site) : site :=
      tls := {| en := false; mg := false; mn := false; ss := false; nr := false; od := od (tls c); email := [] |};
      redir := Some (redir_port c) |}.
 
+(* explicitly-HTTP sites (port 80 or scheme http) are skipped: MakeServers disables their TLS *)
 Definition wants_redirect (all : list site) (i : nat) (c : site) : bool :=
-  en (tls c) && negb (nr (tls c)) && negb (host_has_other_port all i P80)
+  en (tls c) && negb (nr (tls c)) && negb (beq (port c) P80) && negb (beq (scheme c) HTTP)
+  && negb (host_has_other_port all i P80)
   && (beq (port c) P443 || negb (host_has_other_port all i P443)).
 
 (* `for i, cfg := range allConfigs` ranges over the ORIGINAL length while the list grows *)
